@@ -37,20 +37,21 @@ func init() { reg.Register("C10", Run) }
 
 // Case is one replayable execution.
 type Case struct {
-	Kind     string  `json:"kind"`           // diff | lift | funcs | live | conc | cli | pin
-	Tpl      string  `json:"tpl"`            // template under test (for funcs: the call site)
-	Ref      string  `json:"ref,omitempty"`  // reference template (lifted / inlined)
-	File     string  `json:"file,omitempty"` // funcs file text
-	Ctxs     []Ctx   `json:"ctxs,omitempty"`
-	RefCtxs  []Ctx   `json:"ref_ctxs,omitempty"` // contexts of the reference (lift); default Ctxs
-	Stateful bool    `json:"stateful,omitempty"` // uses a helper documented to cache (time format detection)
-	W        int     `json:"w,omitempty"`
-	Rounds   int     `json:"rounds,omitempty"`
-	Env      bool    `json:"env,omitempty"` // cli: funcs file through RARE_FUNC_FILES
-	Class    string  `json:"class,omitempty"`
-	Pin      string  `json:"pin,omitempty"`
-	Cases    []*Case `json:"cases,omitempty"` // live-batch
-	Canon    string  `json:"canon,omitempty"` // funcs: the same definitions, one per line, no comments / continuations
+	Kind     string   `json:"kind"`           // diff | lift | funcs | live | conc | cli | pin
+	Tpl      string   `json:"tpl"`            // template under test (for funcs: the call site)
+	Ref      string   `json:"ref,omitempty"`  // reference template (lifted / inlined)
+	File     string   `json:"file,omitempty"` // funcs file text
+	Ctxs     []Ctx    `json:"ctxs,omitempty"`
+	RefCtxs  []Ctx    `json:"ref_ctxs,omitempty"` // contexts of the reference (lift); default Ctxs
+	Stateful bool     `json:"stateful,omitempty"` // uses a helper documented to cache (time format detection)
+	W        int      `json:"w,omitempty"`
+	Rounds   int      `json:"rounds,omitempty"`
+	Env      bool     `json:"env,omitempty"` // cli: funcs file through RARE_FUNC_FILES
+	Class    string   `json:"class,omitempty"`
+	Pin      string   `json:"pin,omitempty"`
+	Cases    []*Case  `json:"cases,omitempty"` // live-batch
+	Canon    string   `json:"canon,omitempty"` // funcs: the same definitions, one per line, no comments / continuations
+	Flags    []string `json:"flags,omitempty"` // cliflags: global flags of the rare binary
 }
 
 // Known classes (see /verif/notes/C10.md).
@@ -386,9 +387,11 @@ func Run(c *run.Ctx) {
 	phase("diff", func() { diffs(c, forKeys) })
 	phase("lift", func() { lifts(c, forKeys) })
 	phase("funcs", func() { funcsCases(c, forKeys) })
+	phase("layout", func() { layoutCases(c) })
 	phase("conc", func() { concurrent(c, forKeys, c.N(320, 4000)) })
 	phase("live", func() { live(c) })
 	phase("cli", func() { cliCases(c) })
+	phase("cliflags", func() { cliFlagCases(c) })
 	if n := atomic.LoadInt64(&nJudged); n > 200 && atomic.LoadInt64(&nAbstain)*5 > n {
 		c.Inconclusive(fmt.Sprintf("abstained on %d of %d cases (compile errors / panics / funcs files that do not load): too little was judged", nAbstain, n))
 	}
@@ -411,6 +414,8 @@ func runCase(c *run.Ctx, cs *Case) bool {
 		return runLive(c, cs.Cases)
 	case "cli":
 		return runCLI(c, cs)
+	case "cliflags":
+		return runCLIFlags(c, cs)
 	case "pin":
 		return runPin(c, cs)
 	}
